@@ -193,7 +193,7 @@ func replaceUses(old, nu ssa.Value) {
 }
 
 func inlinable(h *ssa.Function, baseline map[string]bool) bool {
-	if h == nil || len(h.Blocks) == 0 || h.Synthetic != "" || !InModule(h) || h.Recover != nil || h.TypeParams().Len() > 0 || len(h.TypeArgs()) > 0 {
+	if h == nil || len(h.Blocks) == 0 || (h.Synthetic != "" && !strings.HasPrefix(h.Synthetic, "instance of")) || !InModule(h) || h.Recover != nil || (h.TypeParams().Len() > 0 && len(h.TypeArgs()) == 0) {
 		return false
 	}
 	if baseline[FuncName(h)] {
@@ -440,5 +440,77 @@ func (p *Prog) InlineNewFunctions(all map[*ssa.Function]bool) []Inlined {
 			}
 		}
 	}
+	// tidy the control flow of the functions that were changed: a block that only jumps to a block with no other
+	// predecessor is joined with it (restores the block structure the code would have had if written in line)
+	touched := map[string]bool{}
+	for _, d := range done {
+		touched[d.Caller] = true
+	}
+	for fn := range all {
+		if touched[FuncName(fn)] {
+			mergeLinearBlocks(fn)
+		}
+	}
 	return done
+}
+
+func mergeLinearBlocks(fn *ssa.Function) {
+	for changed := true; changed; {
+		changed = false
+		for _, b := range fn.Blocks {
+			if len(b.Instrs) == 0 || len(b.Succs) != 1 {
+				continue
+			}
+			if _, isJump := b.Instrs[len(b.Instrs)-1].(*ssa.Jump); !isJump {
+				continue
+			}
+			s := b.Succs[0]
+			if s == b || s == fn.Blocks[0] || s == fn.Recover || len(s.Preds) != 1 || s.Preds[0] != b {
+				continue
+			}
+			// single-predecessor phis are copies
+			ok := true
+			for _, in := range s.Instrs {
+				if phi, isPhi := in.(*ssa.Phi); isPhi && len(phi.Edges) != 1 {
+					ok = false
+				}
+			}
+			if !ok {
+				continue
+			}
+			b.Instrs = b.Instrs[:len(b.Instrs)-1]
+			for _, in := range s.Instrs {
+				if phi, isPhi := in.(*ssa.Phi); isPhi {
+					for _, e := range phi.Edges {
+						dropReferrer(e, phi)
+					}
+					replaceUses(phi, phi.Edges[0])
+					continue
+				}
+				setBlock(in, b)
+				b.Instrs = append(b.Instrs, in)
+			}
+			b.Succs = s.Succs
+			for _, t := range s.Succs {
+				for i, p := range t.Preds {
+					if p == s {
+						t.Preds[i] = b
+					}
+				}
+			}
+			// remove s
+			var nb []*ssa.BasicBlock
+			for _, x := range fn.Blocks {
+				if x != s {
+					nb = append(nb, x)
+				}
+			}
+			fn.Blocks = nb
+			for i, x := range fn.Blocks {
+				x.Index = i
+			}
+			changed = true
+			break
+		}
+	}
 }
